@@ -246,9 +246,9 @@ def run():
     for r in recs:
         if r['kind'] == 'layer' and r['n'] > 1 and r['k'] > 1:
             ctx.nontrivial((r['seed'], r['k']))
-    ctx.sample([r for r in recs if r['kind'] == 'run'][0])
-    ctx.sample([r for r in recs if r['kind'] == 'layer' and r['k'] == 2][0])
-    ctx.sample(srecs[0])
+    ctx.sample_first([r for r in recs if r['kind'] == 'run'])
+    ctx.sample_first([r for r in recs if r['kind'] == 'layer' and r['k'] == 2])
+    ctx.sample_first(srecs)
     kinds = {}
     for r in srecs + recs:
         kinds[r['kind']] = kinds.get(r['kind'], 0) + 1
